@@ -79,7 +79,8 @@ def generate(root, seed, tier):
     for c in ('ok', 'bad'):
         with open(os.path.join(root, c, 'Cargo.toml'), 'w') as f:
             f.write(dep % ('wit_' + c, REPO, REPO))
-    shutil.copy(os.path.join(REPO, 'Cargo.lock'), os.path.join(root, 'Cargo.lock'))
+    if os.path.exists(os.path.join(REPO, 'Cargo.lock')):      # untracked in the repository: a fresh checkout has none and cargo resolves from the offline cache
+        shutil.copy(os.path.join(REPO, 'Cargo.lock'), os.path.join(root, 'Cargo.lock'))
     wit = []          # (fn name, macro, literal, line)
     lines = ['#![allow(unused, clippy::all)]', 'use unic_langid::{lang, langid, langid_slice, langids, region, script, variant, LanguageIdentifier};', 'use unic_locale::{locale, locales, Locale};', '']
 
